@@ -30,6 +30,7 @@ PROGS = {
     'L': {'root': [['submit', 'a', 'leaf'], ['submit', 'b', 'mid'], ['await', 'a'], ['ret']],
           'mid': [['submit', 'x', 'leaf'], ['await', 'x'], ['ret']], 'leaf': [['ret']]},
 }
+PROGS['T1'] = {'root': [['map', 'm', 'leaf', 2], ['await', 'm'], ['ret']], 'leaf': [['ret']]}
 HAS_CANCEL = {'C', 'L'}
 
 
@@ -45,7 +46,7 @@ def tla_prog(progs):
     return '[ ' + ',\n    '.join(fields) + ' ]'
 
 
-def write_mc(scratch, name, progs, nw, policy, record, invariants, depth=None):
+def write_mc(scratch, name, progs, nw, policy, record, invariants, depth=None, client_cancels=False, mut='none'):
     mod = 'MC_' + name
     with open(os.path.join(scratch, mod + '.tla'), 'w') as f:
         f.write('---- MODULE %s ----\nEXTENDS Runtime\nTheProg == %s\n' % (mod, tla_prog(progs)))
@@ -53,8 +54,8 @@ def write_mc(scratch, name, progs, nw, policy, record, invariants, depth=None):
             f.write('Bound == TLCGet("level") <= %d\n' % depth)
         f.write('====\n')
     with open(os.path.join(scratch, mod + '.cfg'), 'w') as f:
-        f.write('SPECIFICATION Spec\nCONSTANTS NW = %d\n RootFn = "root"\n Policy = "%s"\n Record = %s\n Prog <- TheProg\n' % (
-            nw, policy, 'TRUE' if record else 'FALSE'))
+        f.write('SPECIFICATION Spec\nCONSTANTS NW = %d\n RootFn = "root"\n Policy = "%s"\n Record = %s\n Prog <- TheProg\n'
+                ' ClientCancels = %s\n Mut = "%s"\n' % (nw, policy, 'TRUE' if record else 'FALSE', 'TRUE' if client_cancels else 'FALSE', mut))
         for inv in invariants:
             f.write('INVARIANT %s\n' % inv)
         if depth:
@@ -66,26 +67,39 @@ def write_mc(scratch, name, progs, nw, policy, record, invariants, depth=None):
 def exhaustive(ctx, prop):
     """TLC exhaustive runs; returns (coverage dict, notes)."""
     base_inv = ['RunAtMostOnce', 'NoErr', 'CountersInBounds', 'ClientAnswered']
-    quick = {'C07': [('A', 2), ('B', 2), ('N', 2)], 'C12': [('A', 2), ('L', 2), ('C', 2)], 'C15': [('A', 2), ('B', 2), ('M4', 2)]}
+    # a third element: 'cc' = the client cancels at an arbitrary moment instead of waiting (CANCEL crossing the RESULT of the finished
+    # root included); 'cc-mut' = the same with handle_result's bookkeeping moved behind its early return (must be rejected)
+    quick = {'C07': [('A', 2), ('B', 2), ('N', 2)], 'C12': [('A', 2), ('L', 2), ('C', 2), ('T1', 2, 'cc')],
+             'C15': [('A', 2), ('B', 2), ('M4', 2), ('A', 2, 'cc'), ('T1', 2, 'cc-mut')]}
     thorough = {'C07': [('A', 2), ('A', 3), ('B', 2), ('B', 3), ('N', 2), ('N', 3), ('M4', 3)],
-                'C12': [('A', 2), ('C', 2), ('L', 2), ('L', 3)],
-                'C15': [('A', 2), ('A', 3), ('B', 3), ('M4', 2), ('M4', 3), ('N', 3)]}
-    configs = (quick if ctx.quick else thorough)[prop]
+                'C12': [('A', 2), ('C', 2), ('L', 2), ('L', 3), ('A', 2, 'cc'), ('B', 3, 'cc')],
+                'C15': [('A', 2), ('A', 3), ('B', 3), ('M4', 2), ('M4', 3), ('N', 3), ('A', 3, 'cc'), ('B', 2, 'cc'), ('T1', 2, 'cc-mut')]}
+    configs = [c if len(c) == 3 else (c[0], c[1], '') for c in (quick if ctx.quick else thorough)[prop]]
     states = trans = 0
     notes = []
     per = {}
     actions = {}
     def one(cfgitem):
-        name, nw = cfgitem
-        inv = list(base_inv)
-        if name not in HAS_CANCEL:
+        name, nw, var = cfgitem
+        inv = list(base_inv) + ['CountsExplained']
+        if name not in HAS_CANCEL and not var:
             inv += ['NoResidue', 'CountersAtRest']
-        spec, cfg = write_mc(ctx.scratch, '%s%d' % (name, nw), PROGS[name], nw, 'any', False, inv)
-        return common.tlc(spec, cfg, scratch=ctx.scratch, timeout=1500, coverage=(name, nw) == ('A', 2), cwd=ctx.scratch, workers=4, heap='4g')
+        spec, cfg = write_mc(ctx.scratch, '%s%d%s' % (name, nw, var.replace('-', '')), PROGS[name], nw, 'any', False, inv,
+                             client_cancels=bool(var), mut='count-after-early-return' if var == 'cc-mut' else 'none')
+        return common.tlc(spec, cfg, scratch=ctx.scratch, timeout=1500, coverage=(name, nw, var) in (('A', 2, ''), ('A', 2, 'cc'), ('T1', 2, 'cc')),
+                          cwd=ctx.scratch, workers=4, heap='4g')
     from concurrent.futures import ThreadPoolExecutor
     with ThreadPoolExecutor(4) as ex:
         rs = list(ex.map(one, configs))
-    for (name, nw), r in zip(configs, rs):
+    for (name, nw, var), r in zip(configs, rs):
+        if var == 'cc-mut':
+            # the deliberately broken variant: TLC must find the CANCEL-before-RESULT behaviour that leaves a count behind
+            m = re.search(r'Invariant (\w+) is violated', r.out)
+            if not m or m.group(1) != 'CountsExplained':
+                raise common.MachineryError('Runtime.tla: the broken variant of handle_result is not rejected by CountsExplained (%s)'
+                                            % (m.group(1) if m else r.error[:300] or 'no invariant failed'))
+            per['%s/%dw/%s' % (name, nw, var)] = 'rejected by CountsExplained after %d states' % r.distinct
+            continue
         if not r.ok:
             # an invariant of the L2 model failed (or TLC broke): a design-level counterexample is a machinery-level
             # event here - the properties are decided on the real code by L1 - but it must not go unnoticed
@@ -97,13 +111,16 @@ def exhaustive(ctx, prop):
                 raise common.MachineryError('TLC failed on L2 config %s%d: %s' % (name, nw, r.error[:500]))
         states += r.distinct
         trans += r.states
-        per['%s/%dw' % (name, nw)] = [r.distinct, r.states, r.depth]
+        per['%s/%dw%s' % (name, nw, '/' + var if var else '')] = [r.distinct, r.states, r.depth]
         if r.coverage:
-            # the six disjuncts of Next (ClientSubmit, ServerRecv, WorkerIn, StepTask, StartDelayed, GoIdle), by source line
-            actions = {k: v for k, v in r.coverage.items() if k.startswith('Next@')}
-            dead = [k for k, v in actions.items() if v == 0]
-            if dead or len(actions) < 6:
-                raise common.MachineryError('L2 actions never taken (vacuous model): %s of %s' % (dead, actions))
+            # the seven disjuncts of Next (ClientSubmit, ClientCancel, ServerRecv, WorkerIn, StepTask, StartDelayed, GoIdle), by source
+            # line; ClientCancel is enabled only in the 'cc' configurations
+            acts = {k: v for k, v in r.coverage.items() if k.startswith('Next@')}
+            dead = sorted(k for k, v in acts.items() if v == 0)
+            if len(acts) < 7 or len(dead) > (0 if var else 1):
+                raise common.MachineryError('L2 actions never taken (vacuous model) in %s/%d/%s: %s of %s' % (name, nw, var, dead, acts))
+            if not actions or var:
+                actions = acts
     return {'l2_states': states, 'l2_transitions': trans, 'l2_configs': per, 'l2_action_counts': actions}, notes
 
 
@@ -116,10 +133,13 @@ class Drift(Exception):
 class Replayer:
     """Replays one L2 behaviour (list of {a, w, p}) into the real attached runtime."""
 
-    def __init__(self, progs, nw):
+    def __init__(self, progs, nw, cancels=False):
         from harness import rtdrive, rtprog, sim
         self.sim = sim
-        sc = {'topo': ['attached', nw], 'progs': progs, 'clients': [[['submit', 'H0', 'root'], ['result', 'H0']]],
+        self.cancels = cancels
+        self.go2 = False
+        sc = {'topo': ['attached', nw], 'progs': progs,
+              'clients': [[['submit', 'H0', 'root'], ['cancel', 'H0']] if cancels else [['submit', 'H0', 'root'], ['result', 'H0']]],
               'sched': ['replay', [], []], 'lines': False, 'crash': None, 'probe': False}
         self.run = rtdrive.Run(sc)
         self.k = self.run.k
@@ -143,10 +163,19 @@ class Replayer:
                 u = comp.submit(Circuit(1), [rtprog.RootPass('root', 1)], request_data=True)
                 run.uuid2cid[u] = 1
                 rtprog.ev('ClientReturn', c=1, call='submit', cid=1, kind='ok')
-                rtprog.ev('ClientCall', c=1, call='result', cid=1)
-                run.pending[0] = ('result', 1)
-                r = comp.result(u)
-                rtprog.ev('ClientReturn', c=1, call='result', cid=1, kind='result', v=r[1]['out'])
+                if rep.cancels:
+                    # the ClientCancels configurations of Runtime.tla: no request for the result, a cancel at the moment TLC chose
+                    run.pending[0] = None
+                    self.k.yield_(('gatec',), lambda: rep.go2)
+                    rtprog.ev('ClientCall', c=1, call='cancel', cid=1)
+                    run.pending[0] = ('cancel', 1)
+                    comp.cancel(u)
+                    rtprog.ev('ClientReturn', c=1, call='cancel', cid=1, kind='ok')
+                else:
+                    rtprog.ev('ClientCall', c=1, call='result', cid=1)
+                    run.pending[0] = ('result', 1)
+                    r = comp.result(u)
+                    rtprog.ev('ClientReturn', c=1, call='result', cid=1, kind='result', v=r[1]['out'])
             except Exception as e:
                 cause, booms, text = rtdrive.classify_error(e)
                 rtprog.ev('ClientReturn', c=1, call=run.pending[0][0], cid=1, kind='error', cause=cause, boom=booms, text=text[-300:])
@@ -200,7 +229,7 @@ class Replayer:
             for t in list(self.k.threads):
                 if t.state == 'done' or t.why == ('label', 'top'):
                     continue
-                if t is self.tclient and t.why in (('gate',), ('gate2',)):
+                if t is self.tclient and t.why in (('gate',), ('gate2',), ('gatec',)):
                     continue
                 if self.enabled(t):
                     self.step(t)
@@ -249,12 +278,25 @@ class Replayer:
         srv = self.server()
         if a == 'ClientSubmit':
             self.go = True
-            self.run_until(self.tclient, lambda t: t.why[0] == 'recv')      # SUBMIT and REQUEST sent, waiting for the result
+            if self.cancels:
+                self.run_until(self.tclient, lambda t: t.why == ('gatec',))    # SUBMIT sent; the client holds its cancel back
+            else:
+                self.run_until(self.tclient, lambda t: t.why[0] == 'recv')      # SUBMIT and REQUEST sent, waiting for the result
             cconn = list(srv.clients.keys())[0]
             while cconn.readable() and len(cconn.rx.q) > 0:
                 self.net.force_select = cconn
                 self.run_until(self.tserver, lambda t: t.why == ('select',))
             self.flush_outgoing()
+        elif a == 'ClientCancel':
+            # the client's CANCEL is sent and handled (the server forgets the mailbox, broadcasts CANCEL, acknowledges) in one go
+            self.go2 = True
+            self.run_until(self.tclient, lambda t: t.why[0] == 'recv')
+            cconn = list(srv.clients.keys())[0]
+            while cconn.readable() and len(cconn.rx.q) > 0:
+                self.net.force_select = cconn
+                self.run_until(self.tserver, lambda t: t.why == ('select',))
+            self.flush_outgoing()
+            self.run_until(self.tclient, lambda t: t.why == ('gate2',))
         elif a == 'ServerRecv':
             self.net.force_select = srv.employees[w].conn
             self.run_until(self.tserver, lambda t: t.why == ('select',))
@@ -284,9 +326,9 @@ class Replayer:
         return self.run.finish(status)
 
 
-def replay_behaviour(progs, nw, beh):
+def replay_behaviour(progs, nw, beh, cancels=False):
     """Returns (verdict, index, detail, trace, diag)."""
-    r = Replayer(progs, nw)
+    r = Replayer(progs, nw, cancels)
     verdict, idx, detail = 'ok', len(beh), ''
     try:
         r.prepare()
@@ -312,10 +354,10 @@ def _as_items(v):
 
 
 def _replay_job(job):
-    progs, nw, beh = job
+    progs, nw, beh, cancels = job
     logging.disable(logging.CRITICAL)
     try:
-        v, i, d, tr, dg = replay_behaviour(progs, nw, beh)
+        v, i, d, tr, dg = replay_behaviour(progs, nw, beh, cancels)
         return v, i, d, tr, dg, None
     except Exception:
         import traceback
@@ -325,14 +367,19 @@ def _replay_job(job):
 def simulate_and_replay(ctx, prop):
     """TLC -simulate on the deterministic-assignment instances -> behaviours -> guided replays."""
     import multiprocessing as mp
-    names = {'C07': ['A', 'B', 'N'], 'C15': ['A', 'M4', 'B'], 'C12': ['C', 'L']}[prop]
+    # (a name ending in '+cc': the client cancels at the moment TLC chooses instead of waiting for the result)
+    names = {'C07': ['A', 'B', 'N'], 'C15': ['A', 'M4', 'B', 'T1+cc', 'A+cc'], 'C12': ['C', 'L', 'T1+cc']}[prop]
     num = 20 if ctx.quick else 500
     jobs = []
     sim_states = 0
     for name in names:
+        cancels = name.endswith('+cc')
+        name = name.split('+')[0]
         for nw in (2, 3):
-            spec, cfg = write_mc(ctx.scratch, 'S%s%d' % (name, nw), PROGS[name], nw, 'det', True, ['Dump'])
-            r = common.tlc(spec, cfg, scratch=ctx.scratch, timeout=600, workers=1, simulate='num=%d' % num, depth=300,
+            spec, cfg = write_mc(ctx.scratch, 'S%s%d%s' % (name, nw, 'cc' if cancels else ''), PROGS[name], nw, 'det', True, ['Dump'],
+                                 client_cancels=cancels)
+            # (more behaviours where the client cancels: the cancel that crosses the root's RESULT is one moment among ~40)
+            r = common.tlc(spec, cfg, scratch=ctx.scratch, timeout=600, workers=1, simulate='num=%d' % (num * 4 if cancels else num), depth=300,
                            seed=ctx.seed + 1, cwd=ctx.scratch)
             behs = []
             for v in r.prints:
@@ -347,10 +394,11 @@ def simulate_and_replay(ctx, prop):
                 h = common.digest(b)
                 if h not in seen:
                     seen.add(h)
-                    jobs.append((PROGS[name], nw, b))
+                    jobs.append((PROGS[name], nw, b, cancels))
     if not jobs:
         raise common.MachineryError('TLC simulation produced no behaviours to replay')
     cx = mp.get_context('fork')
+    rtcheck._init_worker()          # import the tree under test once; the forked workers inherit it
     with cx.Pool(12, initializer=rtcheck._init_worker) as pool:
         res = pool.map(_replay_job, jobs, chunksize=2)
     drift = 0
@@ -360,7 +408,8 @@ def simulate_and_replay(ctx, prop):
     errors = [r[5] for r in res if r[5]]
     if len(errors) > len(res) // 10:
         raise common.MachineryError('guided replay failed: %s' % errors[0])
-    for (progs, nw, beh), (v, i, d, tr, dg, err) in zip(jobs, res):
+    ncc = 0
+    for (progs, nw, beh, cancels), (v, i, d, tr, dg, err) in zip(jobs, res):
         if err:
             continue
         acts += len(beh) if v == 'ok' else max(i, 0)
@@ -368,9 +417,12 @@ def simulate_and_replay(ctx, prop):
             drift += 1
             if first is None:
                 first = 'DRIFT property=%s step=%d %s (code and L2 model disagree on a projected state component; not a violation)' % (prop, i, d[:300])
-        traces.append((tr, dg, {'topo': ['attached', nw], 'progs': progs, 'clients': [[['submit', 'H0', 'root'], ['result', 'H0']]],
+        if cancels and (dg.get('stats') or {}).get('root_result_after_cancel'):
+            ncc += 1
+        traces.append((tr, dg, {'topo': ['attached', nw], 'progs': progs,
+                                'clients': [[['submit', 'H0', 'root'], ['cancel', 'H0']] if cancels else [['submit', 'H0', 'root'], ['result', 'H0']]],
                                 'sched': ['replay', dg['picks'], dg['choices']], 'lines': False, 'crash': None, 'probe': False, 'guided': True}))
-    cov = {'l2_behaviours_replayed': len(jobs), 'l2_actions_replayed_with_equal_projection': acts, 'l2_replay_drift': drift,
+    cov = {'l2_behaviours_replayed': len(jobs), 'l2_replays_with_cancel_read_before_result_of_finished_root': ncc, 'l2_actions_replayed_with_equal_projection': acts, 'l2_replay_drift': drift,
            'l2_simulated_states': sim_states}
     notes = [first] if first else []
     return cov, traces, notes
@@ -386,17 +438,35 @@ def model_check_and_generate(prop, ctx):
 
 # ------------------------------------------------------------------ ServerClients.tla (C13 / C12 server side)
 
+SC_INVARIANTS = ['NoCrash', 'RepliesConsistent', 'TablesConsistent', 'NoOrphanMailbox', 'NoCancelledResidue', 'NoResidueOfGoneClient',
+                 'WaitingIsLive']
+SC_MUTANTS = {'skip-ready-on-disconnect': ('TablesConsistent', 'NoOrphanMailbox', 'NoCancelledResidue', 'NoResidueOfGoneClient'),
+              'error-needs-mailbox': ('RepliesConsistent',)}
+
+
 def server_clients(ctx):
     """Exhaustive TLC run of the client-facing server model, then client scripts derived from TLC-simulated behaviours.
     Returns (coverage, scenarios)."""
+    from concurrent.futures import ThreadPoolExecutor
     spec = os.path.join(SPEC_DIR, 'ServerClients.tla')
     ids = '{"a", "b"}' if ctx.quick else '{"a", "b", "c"}'
-    invs = ['NoCrash', 'RepliesConsistent', 'TablesConsistent', 'NoCancelledResidue', 'WaitingIsLive']
     cfg = os.path.join(ctx.scratch, 'SC_exh.cfg')
     with open(cfg, 'w') as f:
-        f.write('SPECIFICATION Spec\nCONSTANTS NC = 2\n IDS = %s\n Record = FALSE\n%sCHECK_DEADLOCK FALSE\n' % (
-            ids, ''.join('INVARIANT %s\n' % i for i in invs)))
-    r = common.tlc(spec, cfg, scratch=ctx.scratch, timeout=1500, workers=8, coverage=ctx.quick)
+        f.write('SPECIFICATION Spec\nCONSTANTS NC = 2\n IDS = %s\n Record = FALSE\n Mut = "none"\n%sCHECK_DEADLOCK FALSE\n' % (
+            ids, ''.join('INVARIANT %s\n' % i for i in SC_INVARIANTS)))
+
+    def mutant(name):
+        # the same model with one handler deliberately broken: the invariants must be able to fail
+        c = os.path.join(ctx.scratch, 'SC_mut_%s.cfg' % name)
+        with open(c, 'w') as f:
+            f.write('SPECIFICATION Spec\nCONSTANTS NC = 2\n IDS = {"a", "b"}\n Record = FALSE\n Mut = "%s"\n%sCHECK_DEADLOCK FALSE\n' % (
+                name, ''.join('INVARIANT %s\n' % i for i in SC_INVARIANTS)))
+        return common.tlc(spec, c, scratch=ctx.scratch, timeout=900, workers=2, heap='2g')
+    with ThreadPoolExecutor(3) as ex:
+        fut = ex.submit(common.tlc, spec, cfg, scratch=ctx.scratch, timeout=1500, workers=6, coverage=ctx.quick)
+        muts = {m: ex.submit(mutant, m) for m in SC_MUTANTS}
+        r = fut.result()
+        muts = {m: f.result() for m, f in muts.items()}
     if not r.ok:
         m = re.search(r'Invariant (\w+) is violated', r.out)
         raise common.MachineryError('ServerClients.tla: %s' % ('invariant %s violated on the model of the current code' % m.group(1) if m else r.error[:400]))
@@ -404,12 +474,46 @@ def server_clients(ctx):
         acts = {k: v for k, v in r.coverage.items() if k.startswith('Next@')}
         if len(acts) < 8 or any(v == 0 for v in acts.values()):
             raise common.MachineryError('ServerClients.tla: action never taken: %s' % acts)
-    cov = {'l2_states': r.distinct, 'l2_transitions': r.states, 'l2_server_model': [r.distinct, r.states, r.depth]}
+    killed = {}
+    for name, mr in muts.items():
+        m = re.search(r'Invariant (\w+) is violated', mr.out)
+        if not m or m.group(1) not in SC_MUTANTS[name]:
+            raise common.MachineryError('ServerClients.tla: the broken variant "%s" of the model is not rejected by the invariant meant for it '
+                                        '(%s)' % (name, m.group(1) if m else mr.error[:300] or 'no invariant failed'))
+        killed[name] = m.group(1)
+    cov = {'l2_states': r.distinct, 'l2_transitions': r.states, 'l2_server_model': [r.distinct, r.states, r.depth],
+           'l2_server_model_broken_variants_rejected_by': killed}
+    allscs = simulated_scripts(ctx, 1500 if ctx.quick else 12000)
+    # run a bounded number: every behaviour shape the model produces is represented (the rare ones in full), the rest sampled
+    cap = 150 if ctx.quick else 3000
+    per = {'error-after-delivered-result': cap // 4, 'finished-unclaimed-then-gone': cap // 5, 'error-after-result': cap // 3,
+           'error-before-result': cap // 6}
+    scs, shapes = [], {}
+    for sc in sorted(allscs, key=lambda x: 'error-after-delivered-result' not in x['shapes']):
+        for sh in sc['shapes']:
+            if shapes.get(sh, 0) < per[sh] and sc not in scs:
+                scs.append(sc)
+                for s2 in sc['shapes']:
+                    shapes[s2] = shapes.get(s2, 0) + 1
+    for sc in allscs:
+        if len(scs) >= cap:
+            break
+        if not sc['shapes']:
+            scs.append(sc)
+    cov['l2_behaviours_simulated'] = len(allscs)
+    cov['l2_behaviours_as_client_scripts'] = len(scs)
+    cov['l2_script_shapes'] = shapes
+    return cov, scs
+
+
+def simulated_scripts(ctx, num, only=None, cap=None):
+    """TLC -simulate on ServerClients.tla -> behaviours -> scenarios (client scripts + programs).  `only` = keep the
+    behaviours that contain one of these shapes (see script_of_behaviour)."""
+    spec = os.path.join(SPEC_DIR, 'ServerClients.tla')
     cfg2 = os.path.join(ctx.scratch, 'SC_sim.cfg')
     with open(cfg2, 'w') as f:
-        f.write('SPECIFICATION Spec\nCONSTANTS NC = 2\n IDS = {"a", "b", "c"}\n Record = TRUE\nINVARIANT Dump\nCHECK_DEADLOCK FALSE\n')
-    num = 150 if ctx.quick else 2000
-    r2 = common.tlc(spec, cfg2, scratch=ctx.scratch, timeout=600, workers=1, simulate='num=%d' % num, depth=9, seed=ctx.seed + 3)
+        f.write('SPECIFICATION Spec\nCONSTANTS NC = 2\n IDS = {"a", "b", "c"}\n Record = TRUE\n Mut = "none"\nINVARIANT Dump\nCHECK_DEADLOCK FALSE\n')
+    r2 = common.tlc(spec, cfg2, scratch=ctx.scratch, timeout=600, workers=1, simulate='num=%d' % num, depth=10, seed=ctx.seed + 3)
     longest = {}
     for v in r2.prints:
         if v and v[0] == 'BEHAVIOUR':
@@ -420,30 +524,82 @@ def server_clients(ctx):
             key = json.dumps(h[:6])
             if key not in longest or len(h) > len(longest[key]):
                 longest[key] = h
-    scs = []
-    for n, h in enumerate(longest.values()):
-        failing = {e['i'] for e in h if e['a'] == 'ErrorIn'}
-        scripts = {1: [], 2: []}
-        for e in h:
-            c = e['c']
-            if e['a'] == 'Submit':
-                scripts[c].append(['submit', e['i'], 'bad' if e['i'] in failing else 'root'])
-            elif e['a'] == 'Request':
-                scripts[c].append(['result', e['i']])
-            elif e['a'] == 'Status':
-                scripts[c].append(['status', e['i']])
-            elif e['a'] == 'Cancel':
-                scripts[c].append(['cancel', e['i']])
-            elif e['a'] == 'Disconnect':
-                scripts[c].append(['close'])
-        clients = [s for s in (scripts[1], scripts[2]) if s]
-        if not clients:
-            continue
-        progs = {'root': [['submit', 'x', 'leaf'], ['await', 'x'], ['ret']], 'bad': [['submit', 'x', 'leaf'], ['await', 'x'], ['raise']], 'leaf': [['ret']]}
-        scs.append({'topo': ['detached', [[1], [2], [1, 1]][n % 3]], 'progs': progs, 'clients': clients,
-                    'sched': ['random', ctx.seed * 7 + n], 'lines': False, 'crash': None, 'probe': True, 'from_tlc': True})
-    cov['l2_behaviours_as_client_scripts'] = len(scs)
-    return cov, scs
+    allscs = [x for x in (script_of_behaviour(h, n, ctx.seed) for n, h in enumerate(longest.values())) if x is not None]
+    if only:
+        allscs = [x for x in allscs if set(x['shapes']) & set(only)]
+    return allscs[:cap] if cap else allscs
+
+
+def script_of_behaviour(h, n, seed, shapes=None):
+    """One TLC behaviour of ServerClients.tla -> client scripts + task programs.
+    Client actions become calls.  The compute side's actions decide the task program of each compilation and WHEN the client
+    moves on: ResultIn / ErrorIn while the owner is not blocked in result() means the owner's next call comes after that event,
+    so the owner lets the system settle first (['settle']); ErrorIn alone = a compilation whose root fails ('bad'), ErrorIn
+    after ResultIn = a compilation whose root returns while a child nobody awaits raises ('late').  Every script that does
+    not end in a disconnect gets one more request after a final settle: the only place where a late error can surface."""
+    shapes = shapes if shapes is not None else {}
+    res_seen, req_seen, err_kind, after_delivery = set(), set(), {}, False
+    own0 = {e['i']: e['c'] for e in h if e['a'] == 'Submit'}
+    for e in h:
+        if e['a'] == 'ResultIn':
+            res_seen.add(e['i'])
+        elif e['a'] == 'Request':
+            req_seen.add((e['c'], e['i']))
+        elif e['a'] == 'ErrorIn':
+            err_kind[e['i']] = 'late' if e['i'] in res_seen else 'bad'
+            if e['i'] in res_seen and (own0.get(e['i']), e['i']) in req_seen:
+                after_delivery = True
+    scripts = {1: [], 2: []}
+    owner, blocked, resulted, last = {}, {1: None, 2: None}, set(), {1: 'U', 2: 'U'}
+    unclaimed_gone = False
+    for e in h:
+        c, a, i = e['c'], e['a'], e['i']
+        if a == 'Submit':
+            owner[i] = c
+            last[c] = i
+            scripts[c].append(['submit', i, err_kind.get(i, 'root')])
+        elif a == 'Request':
+            scripts[c].append(['result', i])
+            blocked[c] = i if (owner.get(i) == c and i not in resulted) else None
+        elif a == 'Status':
+            scripts[c].append(['status', i])
+        elif a == 'Cancel':
+            scripts[c].append(['cancel', i])
+        elif a == 'Disconnect':
+            if any(owner.get(j) == c and j in resulted and ['result', j] not in scripts[c] for j in resulted):
+                unclaimed_gone = True
+            scripts[c].append(['close'])
+        elif a in ('ResultIn', 'ErrorIn'):
+            o = owner.get(i)
+            if a == 'ResultIn':
+                resulted.add(i)
+            if o is None:
+                continue
+            if blocked[o] == i:
+                blocked[o] = None               # the owner's pending result() is answered by this event
+            elif scripts[o] and scripts[o][-1] not in (['settle'], ['close']):
+                scripts[o].append(['settle'])   # the owner's next call comes after this event
+    for c in (1, 2):
+        if scripts[c] and scripts[c][-1] != ['close']:
+            if scripts[c][-1] != ['settle']:
+                scripts[c].append(['settle'])
+            scripts[c].append(['status', last[c]])
+    clients = [x for x in (scripts[1], scripts[2]) if x]
+    if not clients:
+        return None
+    mine = (['finished-unclaimed-then-gone'] if unclaimed_gone else []) + (['error-after-delivered-result'] if after_delivery else []) + sorted(
+        {'error-after-result' if k == 'late' else 'error-before-result' for k in err_kind.values()})
+    for nm in mine:
+        shapes[nm] = shapes.get(nm, 0) + 1
+    pad = [['sleep']] * (3 + n % 9)
+    progs = {'root': [['submit', 'x', 'leaf'], ['await', 'x'], ['ret']],
+             'bad': [['submit', 'x', 'leaf'], ['await', 'x'], ['raise']],
+             'late': [['submit', 'z', 'boom'], ['submit', 'x', 'leaf'], ['await', 'x']] + pad + [['ret']],
+             'boom': [['raise']], 'leaf': [['ret']]}
+    late = 'late' in err_kind.values()
+    sched = ['race', seed * 7 + n, 'root-result', 'task-error'] if late and n % 4 else ['random', seed * 7 + n]
+    return {'topo': ['detached', [[2], [1, 1], [1], [2, 1]][n % 4] if late else [[1], [2], [1, 1]][n % 3]], 'progs': progs, 'clients': clients,
+            'sched': sched, 'lines': False, 'crash': None, 'probe': True, 'from_tlc': True, 'family': 'tlc-scripts', 'shapes': mine}
 
 
 # ------------------------------------------------------------------ Shutdown.tla (C14)
